@@ -193,6 +193,31 @@ Proof.
   - intros jt cs. apply step_rhs_joiner_iff.
 Qed.
 
+(* a step with exactly one active branch: the lone chain is evaluated in place (sync: a one-element tuple;
+   async: awaited), no joiner, no `join!`, no juxtaposition; and every generated step has >= 1 active branch *)
+Lemma active_count_pos j k : k < j_max j -> j_max j = list_max (j_depths j) -> 0 < active_count j k.
+Proof.
+  intros Hk Hm. unfold active_count.
+  assert (Hin : In (list_max (j_depths j)) (j_depths j)).
+  { apply list_max_In. intros Hn. rewrite Hn in Hm. cbn in Hm. lia. }
+  assert (Hf : In (list_max (j_depths j)) (filter (fun d => Nat.ltb k d) (j_depths j))).
+  { apply filter_In. split; [exact Hin|]. apply Nat.ltb_lt. lia. }
+  destruct (filter (fun d => Nat.ltb k d) (j_depths j)); [destruct Hf|cbn; lia].
+Qed.
+
+Theorem single_branch_step_inline cfg inp k vars sr stmts :
+  wf_parsed inp ->
+  let j := the_jout cfg inp in
+  gen_step j k vars sr = Ok stmts -> active_count j k = 1 ->
+  exists pre defs c post,
+    stmts = pre ++ defs ++ [SLet (PIdent sr) (if is_async cfg then RAwait c else RTuple [c])] ++ post.
+Proof.
+  intros Hwf j H Hac.
+  destruct (joiner_once_per_multi_step cfg inp k vars sr stmts Hwf H) as (pre & defs & chains & post & Hs & _ & _ & Hl & _).
+  fold j in Hl, Hs. rewrite Hac in Hl. destruct chains as [|c [|c' l]]; try discriminate.
+  exists pre, defs, c, post. rewrite Hs. rewrite step_rhs_single by lia. reflexivity.
+Qed.
+
 (* each chain is a thunk iff the effective lazy flag is on (under the spawn wrapper of the thread / task kinds) *)
 Theorem chain_thunk_iff_lazy cfg inp k b core :
   let j := the_jout cfg inp in
